@@ -1,4 +1,8 @@
-(* Run-level corollaries: what holds after EVERY history of the L3 model (no bound on its length). *)
+(* Run-level corollaries: what holds after EVERY history of the L3 model (no bound on its length).
+
+   Since the repair of restore_active (the restored blob's index is loaded into memory, as do_open
+   does for the last blob) the active blob never has its index on disk (InvProofs.ActiveInMemory),
+   so the ghost flag s_f2 is never raised (never_f2) and no theorem below carries a proviso on it. *)
 Require Import Pearl.Base.Prelude Pearl.Storage.Model Pearl.Storage.Spec Pearl.Storage.Inv
                Pearl.Storage.IndexProofs Pearl.Storage.ReadProofs Pearl.Storage.InvProofs.
 
@@ -8,24 +12,66 @@ Variable cfg : config.
 
 Definition reach (ops : list op) : storage := fst (run K cfg init_storage ops).
 
-Lemma reach_Inv ops : s_f2 (reach ops) = false -> Inv K (reach ops).
-Proof. intros H. apply run_Inv; [apply init_Inv|exact H]. Qed.
+(* ---------- F2 is unreachable ---------- *)
+Lemma reach_ActiveInMemory ops : ActiveInMemory (reach ops).
+Proof. apply (run_ActiveInMemory K cfg ops init_storage), init_ActiveInMemory. Qed.
+
+Theorem never_f2 ops : s_f2 (reach ops) = false.
+Proof.
+  unfold reach. rewrite (proj2 (run_ActiveInMemory K cfg ops init_storage init_ActiveInMemory)). reflexivity.
+Qed.
+
+(* no operation is ever answered with ErrorKind::Index; in particular no write and no delete *)
+Theorem never_index_error ops o : snd (step K cfg (reach ops) o) <> RErr EIndex.
+Proof. apply step_no_index_error, reach_ActiveInMemory. Qed.
+
+Theorem write_never_index_error ops k ts meta msize dlen dseed :
+  snd (step K cfg (reach ops) (OWrite k ts meta msize dlen dseed)) <> RErr EIndex.
+Proof. apply never_index_error. Qed.
+
+Theorem delete_never_index_error ops k ts meta msize oip :
+  snd (step K cfg (reach ops) (ODelete k ts meta msize oip)) <> RErr EIndex.
+Proof. apply never_index_error. Qed.
+
+Theorem data_op_never_index_error ops k ts meta msize dlen dseed oip :
+  snd (step K cfg (reach ops) (OWrite k ts meta msize dlen dseed)) <> RErr EIndex /\
+  snd (step K cfg (reach ops) (ODelete k ts meta msize oip)) <> RErr EIndex.
+Proof. split; apply never_index_error. Qed.
+
+(* on an open storage every write is acknowledged *)
+Theorem write_acknowledged ops k ts meta msize dlen dseed :
+  s_open (reach ops) = true ->
+  snd (step K cfg (reach ops) (OWrite k ts meta msize dlen dseed)) = RUnit.
+Proof.
+  intros Ho. unfold step. rewrite Ho. cbn [needs_open negb andb].
+  apply do_write_ack, reach_ActiveInMemory.
+Qed.
+
+(* ---------- the invariants ---------- *)
+Lemma reach_Inv ops : Inv K (reach ops).
+Proof. apply run_Inv; [apply init_Inv|apply never_f2]. Qed.
+
+Lemma reach_IdxInv ops : IdxInv (reach ops).
+Proof. apply (BlobsOk_IdxInv K). apply reach_Inv. Qed.
+
+Lemma reach_IdsOk ops : IdsOk (reach ops).
+Proof. apply (run_IdsOk K cfg ops init_storage), init_IdsOk. Qed.
 
 (* C01 *)
 Lemma reach_read_latest ops k :
-  s_f2 (reach ops) = false -> get_latest_entry (reach ops) k None = spec_read (abs (reach ops)) k.
-Proof. intros H. apply read_latest. apply (BlobsOk_IdxInv K). apply reach_Inv, H. Qed.
+  get_latest_entry (reach ops) k None = spec_read (abs (reach ops)) k.
+Proof. apply read_latest, reach_IdxInv. Qed.
 
 (* the log is ordered by blob id: "most recently created blob" = later in the log *)
 Lemma reach_ids_increasing ops : increasing (map b_id (blobs_in_order (reach ops))).
-Proof. apply (run_IdsOk K cfg ops init_storage), init_IdsOk. Qed.
+Proof. apply reach_IdsOk. Qed.
 
 (* C04 / C03: anything that is not a write or a delete leaves the log untouched *)
 Lemma reach_nondata_abs ops o :
   is_data_op o = false -> abs (fst (step_q K cfg (reach ops) o)) = abs (reach ops).
 Proof.
   intros Ho. apply step_q_nondata_abs; [exact Ho| |].
-  - apply (run_IdsOk K cfg ops init_storage), init_IdsOk.
+  - apply reach_IdsOk.
   - apply (run_NoActiveWhenClosed K cfg ops init_storage), init_NoActiveWhenClosed.
 Qed.
 
@@ -45,15 +91,10 @@ Qed.
 
 (* C04: after a maintenance / lifecycle operation every read answers as before *)
 Lemma reach_maint_read ops o k :
-  is_data_op o = false -> s_f2 (reach (ops ++ [o])) = false ->
+  is_data_op o = false ->
   get_latest_entry (reach (ops ++ [o])) k None = get_latest_entry (reach ops) k None.
 Proof.
-  intros Ho Hf. rewrite reach_read_latest by exact Hf.
-  assert (Hf0 : s_f2 (reach ops) = false).
-  { destruct (s_f2 (reach ops)) eqn:E; [|reflexivity]. rewrite reach_snoc in Hf.
-    unfold step_q in Hf. destruct (step K cfg (reach ops) o) as [s' x] eqn:E2. cbn [fst] in Hf.
-    rewrite f2_quiesce in Hf. pose proof (f2_monotone_step K cfg (reach ops) o E) as Hm. rewrite E2 in Hm. cbn [fst] in Hm. congruence. }
-  rewrite (reach_read_latest ops k Hf0). rewrite reach_snoc, reach_nondata_abs by exact Ho. reflexivity.
+  intros Ho. rewrite !reach_read_latest. rewrite reach_snoc, reach_nondata_abs by exact Ho. reflexivity.
 Qed.
 
 (* C03: close + reopen (eager or lazy), with or without removing index files in between *)
@@ -74,4 +115,24 @@ Proof.
   - rewrite map_app. cbn [map]. rewrite app_assoc, reach_snoc, reach_nondata_abs by reflexivity. exact IH.
 Qed.
 
+(* a session that ends without close *)
+Lemma reach_drop_reopen_abs ops lazy :
+  abs (reach ((ops ++ [ODrop]) ++ [OOpen lazy])) = abs (reach ops).
+Proof.
+  rewrite (reach_snoc (ops ++ [ODrop])), reach_nondata_abs by reflexivity.
+  rewrite reach_snoc, reach_nondata_abs by reflexivity. reflexivity.
+Qed.
+
+Lemma reach_restart_read ops lazy k :
+  get_latest_entry (reach (ops ++ [OClose; OOpen lazy])) k None = get_latest_entry (reach ops) k None.
+Proof. rewrite !reach_read_latest. rewrite reach_restart_abs. reflexivity. Qed.
+
 End K.
+
+Print Assumptions never_f2.
+Print Assumptions never_index_error.
+Print Assumptions write_acknowledged.
+Print Assumptions reach_Inv.
+Print Assumptions reach_read_latest.
+Print Assumptions reach_maint_read.
+Print Assumptions reach_restart_read.
